@@ -182,6 +182,24 @@ def monFarmClose (remaining : Nat) (ownerGot fmOut others : Int) : Verdict :=
 def monHopK (x y x' y' : Nat) : Verdict :=
   firstFail [(decide (x * y ≤ x' * y'), "C03-k")]
 
+/-- C10 / C07 (`mon_topup_weight`): after a top-up of an open position the OWNER's latest weight grew and nobody else's changed -/
+def monTopupWeight (ownerGrew : Bool) (othersChanged : Nat) : Verdict :=
+  firstFail [(ownerGrew && othersChanged == 0, "C10-weight-misattributed")]
+
+/-- C08 / C05 (`mon_topup_backed`): the recorded amount grew by exactly the LP of the position's own denom the farm manager received -/
+def monTopupBacked (grown : Nat) (fmGot : Int) : Verdict :=
+  firstFail [(fmGot == (grown : Int), "C08-topup-unbacked,C05-custody")]
+
+/-- C10 (`mon_exit_weight`): leaving with a position that was still open takes weight away: the owner's and the total's latest
+    weight do not grow, and each becomes strictly smaller unless it was already zero (a recorded weight can have been rounded
+    down to zero by earlier piecewise operations — the property does not promise a positive weight) -/
+def monExitWeight (ub ua tb ta : Nat) : Verdict :=
+  firstFail [(decide (ua ≤ ub) && decide (ta ≤ tb) && (ub == 0 || decide (ua < ub)) && (tb == 0 || decide (ta < tb)), "C10-weight-kept")]
+
+/-- C13 (`mon_min_receive`): an executed route delivered at least its `minimum_receive` -/
+def monMinReceive (mr got : Nat) : Verdict :=
+  firstFail [(decide (mr ≤ got), "C13-minimum-receive")]
+
 /-- C12 (`mon_quote`): the Simulation answer taken an instant before = what the swap reports (return, spread, fees) -/
 def monQuote (q x : List Nat) : Verdict :=
   firstFail [(q == x, "C12-quote")]
